@@ -152,6 +152,15 @@ def enumerate_cases(tier, shard=0, nshards=1):
         for arg in [['e', c] for c in CODES] + OPERANDS:
             for mode in ('call', 'formula'):
                 out.append({'k': 'is', 'fn': fn, 'arg': arg, 'mode': mode})
+    # inspectors applied to an error that TRAVELLED: out of a cell whose
+    # formula yields it, through a range into an aggregate, through a
+    # dependant cell
+    for fn in ('ISERROR', 'ISERR', 'ISNA'):
+        for code in CODES:
+            for route in ('cell', 'range-agg', 'agg-cell', 'arith-cell',
+                          'concat-range'):
+                out.append({'k': 'is-route', 'fn': fn, 'code': code,
+                            'route': route})
     out.append({'k': 'is', 'fn': 'NA', 'arg': None, 'mode': 'call'})
     out.append({'k': 'is', 'fn': 'NA', 'arg': None, 'mode': 'formula'})
     for i, c in enumerate(out):
@@ -298,6 +307,22 @@ def judge(case):
         return _chain(case, res)
     if k == 'is':
         return _is(case, res)
+    if k == 'is-route':
+        fn, code, route = case['fn'], case['code'], case['route']
+        cells = {'Sheet1!A1': 4, 'Sheet1!A2': YIELD[code], 'Sheet1!A3': 6}
+        inner = {'cell': 'A2', 'range-agg': 'SUM(A1:A3)',
+                 'agg-cell': 'D4', 'arith-cell': 'D5',
+                 'concat-range': 'CONCAT(A1:A3)'}[route]
+        cells['Sheet1!D4'] = '=MAX(A1:A3)'
+        cells['Sheet1!D5'] = '=A2*2+1'
+        f = '=%s(%s)' % (fn, inner)
+        o = lib.eval_formula(f, cells, addr='Sheet1!ZZ9')[0]
+        want = {'ISERROR': True, 'ISERR': code != '#N/A',
+                'ISNA': code == '#N/A'}[fn]
+        if o != ('B', want):
+            res.fail('inspector-after-route:%s:%s' % (fn, route),
+                     ('B', want), o, [f, code])
+        return res
     return _tree_case(case, res)
 
 
